@@ -1,6 +1,7 @@
 """C15 — cache expiry and TTL countdown: only Ok / NoRecordsFound reach the cache, expiry guard on get, stored lifetime
 depends on the clamp, TTLs only written through saturating decrement."""
 import re
+import argnames
 from api import shorten, writers
 
 EXPLANATION = (
@@ -164,3 +165,8 @@ def run(cx):
         if keeps:
             cx.must_pass('C15.S3', g, keeps, via_blocks=good, what='kept-record-ttl=min(chain-ttl,record-ttl)')
     cx.floor('C15.S3', nkeep, 3, 'records kept by the answer-section rebuild of handle_noerror')
+
+    # ---------------------------------------------------------------- N1 argument names agree with the parameters they are bound to (engine/argnames.py)
+    argnames.check(cx, 'C15.N1', r'hickory_resolver::(cache|caching_client|lookup)', floor=55)
+    argnames.check_fields(cx, 'C15.N1', r'hickory_resolver::(cache|caching_client|lookup)', floor=27)
+
